@@ -106,6 +106,22 @@ def m_surv(ctx, case):
                         ctx.violation("surv-field-wrong", frame=hx, field=nm, expected=exp, observed=r[1:])
                 ctx.hit("surv_df%d" % df)
                 ctx.nontrivial(("sv", hx))
+                # the same three fields through the package-level helpers (pyModeS.fs / dr / um of the common module, documented
+                # for DF 4, 5, 20 and 21): on this reply and on the LONG reply with the same control fields (DF20 / 21: a 56-bit
+                # MB field lies between them and the parity)
+                import pyModeS
+                com = pyModeS.common
+                if all(callable(getattr(com, n_, None)) for n_ in ("fs", "dr", "um")):
+                    fl = bits.with_pi((((df + 16) << 27) | hdr) << 56 | rng.fill(56), 112, rng.fill(24))
+                    for hx2 in (hx, ("%028X" % fl) if rng.random() < 0.7 else ("%028x" % fl)):
+                        for nm, fn, exp in (("fs", com.fs, (fs_,)), ("dr", com.dr, (dr_,)), ("um", com.um, (iis, ids))):
+                            r = call(fn, hx2)
+                            ctx.ev()
+                            ok = r[0] == "ok" and isinstance(r[1], tuple) and tuple(r[1][:len(exp)]) == exp and \
+                                all(t is None or isinstance(t, str) for t in r[1][len(exp):]) and len(r[1]) == len(exp) + 1
+                            if not ok:
+                                ctx.violation("common-helper-surv-field-wrong", frame=hx2, field=nm, expected=exp, observed=r[1:])
+                    ctx.hit("common_fs_dr_um_on_df%d_and_df%d" % (df, df + 16))
 
 
 def m_allcall(ctx, case):
